@@ -64,6 +64,12 @@ func World(prop string, r *rng.R, n int) Result {
 	// open finding 17 (a gas paymaster is paid out of coins lying on the orbiter account): its witness is the
 	// first history of the two families whose property it contradicts, so that every run meets it
 	wr.pinFirst = prop == "C11" || prop == "C02"
+	// every way of spoiling a forwarding, on every route, on an otherwise valid packet: the head of these families
+	// visits them all, so that a class which only matters when everything else is right is met on every run
+	wr.sweepNext = -1
+	if prop == "C14" || prop == "C05" || prop == "C03" || prop == "C01" {
+		wr.sweepNext = 0
+	}
 	for len(res.Cases) < n {
 		cr := r.Fork()
 		c, fails := wr.runCase(prop, p, cr, stats)
@@ -178,10 +184,16 @@ func (wr *worldRunner) runCase(prop string, p profile, r *rng.R, stats map[strin
 	}
 	pinned := wr.pinFirst
 	wr.pinFirst = false
+	sweep := -1
+	if wr.sweepNext >= 0 && wr.sweepNext < 2*3*spoilClasses {
+		sweep = wr.sweepNext
+		wr.sweepNext++
+	}
 	for i := 0; i < nops; i++ {
 		x := r.Intn(p.wRecv + p.wMsg + p.wDeposit + p.wQuery + p.wSend)
 		pin := pinned && i == 0
-		if pin {
+		swept := sweep >= 0 && i == 0
+		if pin || swept {
 			x = 0
 		}
 		switch {
@@ -202,6 +214,19 @@ func (wr *worldRunner) runCase(prop string, p profile, r *rng.R, stats map[strin
 			ops = append(ops, planned{op, pktInfo{shape: "send"}})
 		case x < p.wRecv:
 			pkt, info := g.genPacket()
+			if swept {
+				kind := cleanRoutes[sweep%3]
+				g.variant = 1 + sweep/(3*spoilClasses) // first pass: the first option of every choice, second pass: the second
+				for try := 0; try < 3000 && !(info.shape == "valid" && info.spec != nil && pkt.ICS != nil && !info.spec.swap &&
+					info.spec.fwd.kind == kind && info.denom == sim.USDC && info.expectOK && len(info.spec.fwd.pass) == 0); try++ {
+					pkt, info = g.genPacket()
+				}
+				if info.spec != nil {
+					info.shape += "/fwd-" + g.spoilClass(&info.spec.fwd, (sweep/3)%spoilClasses)
+					info.expectOK = false
+				}
+				g.variant = 0
+			}
 			if pin {
 				for try := 0; try < 2000 && !(info.shape == "valid" && info.spec != nil && pkt.ICS != nil && !info.spec.swap && info.spec.fwd.kind == "hyp" &&
 					info.denom == sim.USDC && info.expectOK); try++ {
@@ -226,7 +251,7 @@ func (wr *worldRunner) runCase(prop string, p profile, r *rng.R, stats map[strin
 					}
 				}
 			}
-			if info.spec != nil && pkt.ICS != nil && info.spec.rawMem == nil && info.spec.fwd.kind == "hyp" && info.denom != "" && p.wDeposit > 0 && r.Chance(10) {
+			if !pin && !swept && info.spec != nil && pkt.ICS != nil && info.spec.rawMem == nil && info.spec.fwd.kind == "hyp" && !info.spec.fwd.gasHook && info.denom != "" && p.wDeposit > 0 && r.Chance(10) {
 				// a Hyperlane forwarding that names the collateral token of ANOTHER denomination, while the orbiter account
 				// happens to hold enough of that denomination (anybody can send it there)
 				if other, ok := otherDenom(info.denom); ok && info.amount.Sign() > 0 && info.amount.BitLen() < 80 {
@@ -272,7 +297,7 @@ func (wr *worldRunner) runCase(prop string, p profile, r *rng.R, stats map[strin
 					}
 				}
 			}
-			if !pin && r.Chance(p.pCallback) && pkt.ICS != nil {
+			if !pin && !swept && r.Chance(p.pCallback) && pkt.ICS != nil {
 				// a packet Noble sent earlier: its acknowledgement or timeout comes back
 				op.Callback = rng.Pick(r, []string{"ack-ok", "ack-err", "timeout"})
 				op.Pkt = world.Packet{SrcPort: dstPort, SrcChan: rng.Pick(r, dstChans), DstPort: srcPort, DstChan: srcChan,
@@ -280,7 +305,7 @@ func (wr *worldRunner) runCase(prop string, p profile, r *rng.R, stats map[strin
 						Sender: rng.Pick(r, []string{wr.a.users[0].Bech, sim.OrbiterAddr().String(), "noble1invalid"}), Receiver: "cosmos1xyz", Memo: pkt.ICS.Memo}}
 				info = pktInfo{shape: "callback/" + op.Callback}
 			}
-			if pin {
+			if pin || swept {
 			} else if info.orbiter && r.Chance(p.pFault) {
 				k := r.Intn(9)
 				op.Plan = make([]bool, k+1)
@@ -391,6 +416,29 @@ func (wr *worldRunner) runCase(prop string, p profile, r *rng.R, stats map[strin
 					wr.w.Transcript(pctx, o)
 				}
 				wr.w.Transcript(pctx, world.Op{Kind: "msg", Msg: world.Msg{Kind: "UpdateParams", Signer: sim.Authority, Max: 4242}})
+				// ... and this history's own messages and queries with every protocol name rotated (the same identifiers
+				// under another protocol): whatever an instance remembers about an identifier must not leak across protocols
+				rot := map[string]string{"PROTOCOL_CCTP": "PROTOCOL_INTERNAL", "PROTOCOL_INTERNAL": "PROTOCOL_HYPERLANE", "PROTOCOL_HYPERLANE": "PROTOCOL_IBC", "PROTOCOL_IBC": "PROTOCOL_CCTP"}
+				for _, pl := range ops {
+					o := pl.op
+					switch o.Kind {
+					case "msg":
+						if n, ok := rot[o.Msg.ID]; ok {
+							o.Msg.ID = n
+							o.Msg.Signer = sim.Authority
+							wr.w.Transcript(pctx, o)
+							o.Msg.ID = rot[n]
+							wr.w.Transcript(pctx, o)
+						}
+					case "query":
+						if n, ok := rot[o.Q.ID]; ok {
+							o.Q.ID = n
+							wr.w.Transcript(pctx, o)
+							o.Q.ID = rot[n]
+							wr.w.Transcript(pctx, o)
+						}
+					}
+				}
 			}
 			rctx := wr.caseCtx()
 			for _, ch := range dstChans {
